@@ -30,10 +30,18 @@ build_vx() {
   (cd "$VERIF/engine" && go build -modfile="$d/go.mod" -overlay "$d/overlay.json" -tags verif -o "$d/vx" ./cmd/vx) > "$d/build.log" 2>&1 || { cat "$d/build.log"; echo "MACHINERY-ERROR: build of instrumented gmqtt failed (does /repo still compile?)"; exit 2; }
 }
 
+# build_racer <dir>: the uninstrumented broker plus a traffic driver, with the Go race
+# detector (free-running pass of C15); failure to build is not fatal for the search
+build_racer() {
+  local d="$1"
+  (cd "$VERIF/engine" && CGO_ENABLED=1 go build -race -modfile="$d/go.mod" -o "$d/racer" ./racer) > "$d/racer-build.log" 2>&1 || { echo "note: race-detector build failed (see $d/racer-build.log); C15 runs without the free-running pass"; rm -f "$d/racer"; }
+}
+
 case "${1:-}" in
   setup)
     build_xform
     build_vx "$WORK/b-setup"
+    build_racer "$WORK/b-setup"
     echo "setup ok"
     exit 0 ;;
   "")
@@ -44,6 +52,10 @@ PROP="$1"; TIER="${2:-quick}"
 [ -x "$WORK/bin/xform" ] || build_xform
 D="$WORK/b-$PROP${VERIF_WORKTAG:-}"
 build_vx "$D"
+if [ "$PROP" = C15 ] && [ "$TIER" != replay ]; then
+  build_racer "$D"
+  [ -x "$D/racer" ] && export VERIF_RACER="$D/racer"
+fi
 if [ "$TIER" = replay ]; then
   exec "$D/vx" -prop "$PROP" -tier quick -replay "$3"
 fi
